@@ -6,6 +6,7 @@ clock, plant files at target paths, remove target directories and tear protobuf 
 Oracles: (1) isolation against a fork-isolated pristine twin, (2) history check over identically
 constructed writers, (3) readable + same inventory, (4) SKIP leaves an existing file byte-identical.
 """
+import copy
 import datetime
 import hashlib
 import os
@@ -162,7 +163,7 @@ class Run(RunBase):
         k = op["op"]
         if k == "construct":
             return op["scn"] in self.scn
-        if k == "write":
+        if k in ("write", "clone"):
             return op["w"] in self.writers
         if k == "mutate_scn":
             return op["scn"] in self.scn
@@ -191,6 +192,23 @@ class Run(RunBase):
         self.writers[op["w"]] = {"w": w, "args": args, "scn": op["scn"], "writes": 0, "failed": False,
                                  "last_day": None, "methods": set(), "writes_pending": True,
                                  "foreign_prec": False, "foreign_pb": False, "input_changed": False}
+        return "ok"
+
+    def _op_clone(self, op):
+        """The writer is copied (copy.copy / copy.deepcopy, the inputs stay shared through the memo) and the COPY is
+        used from now on: it was constructed with the same arguments, so it writes what the original would."""
+        rec = self.writers[op["w"]]
+        scn, pps = self.scn[rec["scn"]]
+        try:
+            if op["how"] == "copy":
+                clone = copy.copy(rec["w"])
+            else:
+                clone = copy.deepcopy(rec["w"], {id(scn): scn, id(pps): pps})
+        except Exception as e:  # noqa   whether writers can be copied at all is not C15's business
+            self.probe("clone-raised:" + type(e).__name__)
+            return {"raised": type(e).__name__}
+        rec["w"] = clone
+        self.probe("writer-cloned:" + op["how"])
         return "ok"
 
     def _op_clock(self, op):
@@ -465,6 +483,8 @@ def _writer_user(rng, run, name, cfg):
                   "method": "scenario" if rng.chance(0.3) else "full",
                   "validate": rng.chance(0.3) if cfg["buggify_validate"] else False,
                   "readback": rng.chance(cfg["p_readback"]), "path_form": rng.choice(["str", "str", "Path"])}
+            if rng.chance(0.12):
+                yield {"op": "clone", "w": w, "how": rng.choice(["copy", "deepcopy"])}
             r = rng.random()
             if "F-nodir" in cfg["faults"] and r < cfg["p_fault"]:
                 op["fault"] = {"nodir": True}
@@ -543,7 +563,7 @@ class C15(Property):
                        "midnight-between-two-writes-of-one-writer", "success-after-failed-write",
                        "both-write-methods-on-one-writer", "write-failed-as-twin", "identical-writers-compared",
                        "readback-ok", "clock-crossed-midnight", "clock-went-backwards", "write-after-scenario-changed", "target-is-a-directory", "asked-user-answer-y", "asked-user-answer-n",
-                       "reader-object-reused-after-rewrite"]
+                       "reader-object-reused-after-rewrite", "writer-cloned:copy", "writer-cloned:deepcopy"]
     assumptions = [
         "the pristine twin is the library itself (fresh writer, fork-isolated): a defect that a fresh writer shows "
         "too is C01/C02/C03 territory and invisible here by construction",
